@@ -86,25 +86,32 @@ theorem pushdown_fragment {D : Dataset} (hD : (D.named.map (·.1)).Nodup) : ∀ 
     cases p1vars with
     | none => simp [Alg.safe] at hs
     | some vs =>
-      simp only [Alg.safe, Bool.and_eq_true, Option.getD_some] at hs
+      simp only [Alg.safe, Bool.and_eq_true] at hs
       obtain ⟨⟨⟨⟨has, hbs⟩, hes⟩, hs1⟩, hs2⟩ := hs
-      simp only [Model.evalPart, Spec.eval, Option.getD_some]
+      simp only [Model.evalPart, Spec.eval]
       exact pushdown_leftjoin (XB := fun c => Model.evalPart D g c b)
         (pushdown_fragment hD a hf.1 has hwsa g μ0)
         (fun c => pushdown_fragment hD b hf.2 hbs hwsb g c) (exprOK_of_safe e hes g) hs1 hs2
         (fun μ hμ => spec_bounds a hf.1 hwsa g μ hμ) (fun μ hμ => spec_bounds b hf.2 hwsb g μ hμ)
-  | .minus a b p1vars, hf, hs, hws, g, μ0 => by
+  | .minus a b p1vars p2vars, hf, hs, hws, g, μ0 => by
     simp only [Alg.inFragment, Bool.and_eq_true] at hf
-    simp only [Alg.safe, Bool.and_eq_true] at hs
-    obtain ⟨⟨has, hbs⟩, hsc⟩ := hs
     have hwsa : ∀ v ∈ a.allVars, v < n := fun v hv => hws v (by simp [Alg.allVars, hv])
     have hwsb : ∀ v ∈ b.allVars, v < n := fun v hv => hws v (by simp [Alg.allVars, hv])
-    simp only [Model.evalPart, Spec.eval]
-    have hb := pushdown_fragment hD b hf.2 hbs hwsb g (Row.empty : Row n)
-    rw [push_empty] at hb
-    exact pushdown_minus (pushdown_fragment hD a hf.1 has hwsa g μ0) hb hsc
-      (fun μ hμ => spec_bounds a hf.1 hwsa g μ hμ)
-      (fun y hy v hv => (spec_bounds b hf.2 hwsb g y hy).2 v hv)
+    cases p1vars with
+    | none => simp [Alg.safe] at hs
+    | some vs =>
+      simp only [Alg.safe, Bool.and_eq_true] at hs
+      obtain ⟨⟨⟨has, hbs⟩, hsc⟩, hp2⟩ := hs
+      simp only [Model.evalPart, Spec.eval]
+      have hb := pushdown_fragment hD b hf.2 hbs hwsb g (Row.empty : Row n)
+      rw [push_empty] at hb
+      refine pushdown_minus (pushdown_fragment hD a hf.1 has hwsa g μ0) hb hsc
+        (fun μ hμ => spec_bounds a hf.1 hwsa g μ hμ)
+        (fun y hy v hv => (spec_bounds b hf.2 hwsb g y hy).2 v hv) ?_
+      intro vs2 h2 v hv
+      subst h2
+      simp only [List.all_eq_true, List.contains_eq_mem, decide_eq_true_eq] at hp2
+      exact hp2 v hv
   | .graph gp p, hf, hs, hws, g, μ0 => by
     simp only [Alg.inFragment] at hf
     simp only [Alg.safe] at hs
@@ -138,6 +145,8 @@ theorem pushdown_fragment {D : Dataset} (hD : (D.named.map (·.1)).Nodup) : ∀ 
     simp only [Alg.safe] at hs
     have hwsp : ∀ v ∈ p.allVars, v < n := fun v hv => hws v (by simp [Alg.allVars, hv])
     simp only [Model.evalPart, Spec.eval, Row.restrict_empty]
-    exact pushdown_project pv (pushdown_fragment hD p hf hs hwsp g (μ0.restrict pv))
+    have hp := pushdown_fragment hD p hf hs hwsp g (Row.empty : Row n)
+    rw [push_empty] at hp
+    exact pushdown_project pv hp
 
 end RV.C04
